@@ -33,6 +33,11 @@ while n < N or (G.all_rule_keys() - G.used and n < N + 400):
             back = profilegen.tokenize(text)
             p2 = C2Profile.from_text(text)
             ok = back == toks and p2.tree == p.tree
+            if ok and n % 5 == 0:
+                # parse results are independent values: modifying one does not show in a later parse of the same source
+                p.set_option("jitter", "37")
+                p3 = C2Profile.from_text(src)
+                ok = profilegen.tokenize(p3.as_text()) == toks and p3.tree == p2.tree
             if not ok:
                 k = next((i for i, (a, b) in enumerate(zip(back, toks)) if a != b), min(len(back), len(toks)))
                 witness.update(first_difference_at_token=k, source_tokens=toks[max(0, k - 3):k + 3], regenerated_tokens=back[max(0, k - 3):k + 3],
